@@ -47,8 +47,9 @@ type c16Req struct {
 	Size    int    `json:"size"`
 	Seed    int    `json:"value_seed"`
 	BChunks []int  `json:"body_chunks"`
-	Members int    `json:"gzip_members,omitempty"` // >1: the gzip body is a series of members (RFC 1952), the entity spans them
-	Fault   string `json:"fault"`                  // "", btrunc, berr, bhdr, bflip, bmislabel
+	Members int    `json:"gzip_members,omitempty"`                        // >1: the gzip body is a series of members (RFC 1952), the entity spans them
+	ZWin    int    `json:"zlib_header_declares_smaller_window,omitempty"` // deflate bodies up to 4000 bytes: the zlib header declares a 16K/8K/4K window (legal; Go's own writer always says 32K)
+	Fault   string `json:"fault"`                                         // "", btrunc, berr, bhdr, bflip, bmislabel
 	FaultAt int    `json:"fault_at_permille"`
 
 	value   *c16Entity
@@ -176,6 +177,9 @@ func genC16(x *Ctx) *c16Scen {
 			r.BChunks = chunkPlan(tp, tp.Range(1, 3), 97)
 			if r.Coding == "gzip" && tp.Chance(120) {
 				r.Members = tp.Range(2, 3)
+			}
+			if r.Coding == "deflate" && tp.Chance(150) {
+				r.ZWin = tp.Range(1, 3)
 			}
 			if tp.Chance(450) {
 				r.Fault = []string{"btrunc", "berr", "bhdr", "bflip", "bmislabel", "btrail", "bdouble"}[tp.G(7)]
@@ -331,6 +335,13 @@ func runC16(x *Ctx) {
 							data = append(data, Gzip(plain[m*len(plain)/r.Members:(m+1)*len(plain)/r.Members])...)
 						}
 						count("gzip-bodies-in-several-members")
+					}
+				}
+				if r.ZWin > 0 && r.Coding == "deflate" && len(data) > 2 {
+					if plain, err := Decode("deflate", data); err == nil && len(plain) <= 4000 {
+						hd := [][2]byte{{0x68, 0x81}, {0x58, 0x85}, {0x48, 0x89}}[r.ZWin-1]
+						data[0], data[1] = hd[0], hd[1]
+						count("zlib-bodies-declaring-a-smaller-window")
 					}
 				}
 				if r.Fault == "btrail" {
